@@ -238,17 +238,45 @@ impl Gen {
             self.writer_targets.insert(v);
             // the first deferred write takes a different path in the library than later ones, so
             // every operation gets to be first (the script ends on the per-variable constant anyway)
-            ops.push(InOp::Write(v, match rng.below(4) {
-                0 => WriteOp::Set(rng.range(0, 4)),
-                1 => WriteOp::Replace(rng.range(0, 4)),
-                _ => write_op(rng),
-            }));
+            // a write to another variable from inside the closure of update / modify / replace_with
+            // (first thing in the script, so that both are the first deferred write of their variable,
+            // or somewhere in the middle)
+            let others: Vec<VarId> = vars.iter().copied().filter(|o| *o != v).collect();
+            let mut second = None;
+            let nested_at = if !others.is_empty() && rng.chance(1, 3) { Some(rng.below(2)) } else { None };
+            let mut nested = |ops: &mut Vec<InOp>, rng: &mut Rng, targets: &mut HashSet<VarId>| {
+                let v2 = *rng.pick(&others);
+                targets.insert(v2);
+                let outer = match rng.below(3) {
+                    0 => WriteOp::UpdateAdd(rng.range(1, 2)),
+                    1 => WriteOp::ModifyMul(rng.range(2, 3)),
+                    _ => WriteOp::ReplaceWithAdd(rng.range(1, 2)),
+                };
+                ops.push(InOp::WriteNested(v, outer, v2, write_op(rng)));
+                Some(v2)
+            };
+            if nested_at == Some(0) {
+                second = nested(&mut ops, rng, &mut self.writer_targets);
+            } else {
+                ops.push(InOp::Write(v, match rng.below(4) {
+                    0 => WriteOp::Set(rng.range(0, 4)),
+                    1 => WriteOp::Replace(rng.range(0, 4)),
+                    _ => write_op(rng),
+                }));
+            }
             let n_mid = rng.below(3);
             for _ in 0..n_mid {
                 ops.push(InOp::Write(v, write_op(rng)));
             }
+            if nested_at == Some(1) {
+                second = nested(&mut ops, rng, &mut self.writer_targets);
+            }
             let c = *self.var_const.entry(v).or_insert_with(|| rng.range(0, 4));
             ops.push(InOp::Write(v, if rng.chance(1, 2) { WriteOp::Set(c) } else { WriteOp::Replace(c) }));
+            if let Some(v2) = second {
+                let c2 = *self.var_const.entry(v2).or_insert_with(|| rng.range(0, 4));
+                ops.push(InOp::Write(v2, WriteOp::Set(c2)));
+            }
             if rng.chance(1, 2) {
                 ops.push(InOp::ReadVar(v));
             }
